@@ -68,7 +68,13 @@ CLASSES = (
     "undersaturated oil, inadmissible rel-perm parameters with empty or one-record batches, tables with Rv exactly 0 below an "
     "onset and cells asked alone vs in a batch on / beside table rows, wrong-length schedules padded with NaN / zeros / repeats / "
     "masked cells, the constructor's frac-face pressure differing from schedule[0], curves that are in the Axes but invisible "
-    "(alpha, colour, width, visibility; rendered for ink)"
+    "(alpha, colour, width, visibility; rendered for ink), "
+    "the root logger at DEBUG, IdealReservoir objects that carry a real-gas fluid, bounds with no finite limit at all, the pressure "
+    "at which Z returns to exactly 1, the caller's gas_values mapping re-used for a second table, p_i / densities / tables the "
+    "caller edits in place after construction, nx = 3 with 2..4 stamps, pressure arrays with NaN cells, optional arguments in every "
+    "positional / keyword combination, saturation records that are multi-field views of wider arrays, rel-perm tables in any row "
+    "order, schedules held by the object (constructor array, left over from an earlier run), daily volumes of 1e-9, salinities "
+    "from 0.003 to 25 wt%, flags passed as numpy booleans or integers"
 )
 
 os.makedirs(OUT, exist_ok=True)
